@@ -15,6 +15,7 @@ PROPS = {
     "C06": ("c06", "other"),
     "C07": ("c07", "other"),
     "C14": ("c14", "other"),
+    "C15": ("c15", "other"),
     "C16": ("c16", "other"),
     "C17": ("c17", "other"),
     "C18": ("c18", "other"),
